@@ -7,8 +7,8 @@ import subprocess
 import engine as E
 
 VERIF = E.VERIF
-UNIT_TOOL = {"field": "field"}           # unit -> tools/replay/<dir>
-PROP_BOUNDED = {"C16": ["field"], "C01": ["field"]}
+UNIT_TOOL = {"field": "field", "strip": "parser"}           # unit -> tools/replay/<dir>
+PROP_BOUNDED = {"C16": ["field"], "C01": ["field", "parser"], "C05": ["parser"], "C04": ["parser"]}
 
 
 def _build(tool):
